@@ -14,7 +14,7 @@ import (
 func init() {
 	register(&Rule{ID: "C14.DATA", Min: 1000, Doc: "every entry of the bundled data set is keyed by the lower-cased declared name and by a well-formed spec", Run: runC14Data})
 	register(&Rule{ID: "C14.REQ", Min: 3, Doc: "sibling derivations of `required` agree: required && no default, where no default is a nil test of a pointer", Run: runC14Req})
-	register(&Rule{ID: "C14.USE", Min: 6, Doc: "undefined/missing reports are control-dependent exactly on the lookup in the corresponding table", Run: runC14Use})
+	register(&Rule{ID: "C14.USE", Min: 10, Doc: "undefined/missing reports are control-dependent exactly on the lookup in the corresponding table", Run: runC14Use})
 	register(&Rule{ID: "C14.OUT", Min: 8, Doc: "outputs are typed open only when the interface is unknown or dynamic", Run: runC14Out})
 	register(&Rule{ID: "C14.TYPE", Min: 1, Doc: "the typed check of reusable workflow inputs uses the declared type of the same input", Run: runC14Type})
 }
@@ -459,6 +459,7 @@ func runC14Use(c *Ctx) {
 		// (b) missing: an append controlled by Required and a failed lookup in the call site's table
 		missOK, missWhy := false, "no collection of missing "+pr.what+"s is control-dependent on `Required` and a failed lookup in "+pr.call
 		var missPos token.Pos = fn.Pos()
+		var missApps []*ssa.Call // the appends that collect the names missing from this pair's table
 		eachInstrH(func(b *ssa.BasicBlock, _ int, in ssa.Instruction) {
 			isDiag := emitsDiag(in)
 			isAppend := false
@@ -527,6 +528,9 @@ func runC14Use(c *Ctx) {
 				}
 			} else {
 				missPos = in.Pos()
+				if lookupFail {
+					missApps = append(missApps, in.(*ssa.Call))
+				}
 				if lookupFail && required && len(extras) == 0 {
 					missOK = true
 				} else if len(extras) > 0 {
@@ -548,40 +552,21 @@ func runC14Use(c *Ctx) {
 		} else {
 			c.bad(cm, missPos, missWhy)
 		}
-		// (c) every collected name is reported: the loop over the collection reports unconditionally
-		reportedAll := false
-		eachInstrH(func(b *ssa.BasicBlock, _ int, in ssa.Instruction) {
-			if !emitsDiag(in) {
-				return
-			}
-			conds := controllingConds(b)
-			// a loop over a slice: the only conditions are loop bounds (BinOp <) and the function-level guards
-			hasIdxLoop, other := false, false
-			for ifi, outcome := range conds {
-				if bo, ok := ifi.Cond.(*ssa.BinOp); ok && bo.Op == token.LSS && outcome {
-					hasIdxLoop = true
-					continue
-				}
-				cc := classifyCond(ifi, outcome)
-				switch cc.kind {
-				case "nilmeta", "loop", "intcmp":
-				case "field":
-					if cc.field != "WorkflowCall.InheritSecrets" {
-						other = true
-					}
-				default:
-					other = true
-				}
-			}
-			if hasIdxLoop && !other {
-				reportedAll = true
-			}
-		})
+		// (c) every collected name is reported: the collection built by THIS pair's appends is ranged over by a loop that
+		// emits a diagnostic about the element in every iteration and is left only when the collection is exhausted
 		cr := pr.fn + "|collected " + pr.what + "s all reported"
-		if reportedAll {
-			c.ok(cr, fn.Pos(), "a loop over the sorted collection reports each element unconditionally")
-		} else {
-			c.bad(cr, fn.Pos(), "no unconditional report per collected element")
+		inScope := map[*ssa.Function]bool{}
+		for _, f := range scope {
+			inScope[f] = true
+		}
+		okAt, why := collectionReported(missApps, inScope)
+		switch {
+		case len(missApps) == 0:
+			c.bad(cr, fn.Pos(), "no collection of missing "+pr.what+"s is built from a failed lookup in "+pr.call)
+		case okAt != nil:
+			c.ok(cr, okAt.Pos(), "the loop over the collection built from "+pr.decl+" reports every element and has no early exit")
+		default:
+			c.bad(cr, missApps[0].Pos(), why)
 		}
 	}
 	// SkipInputs: checkAction for bundled actions only when found and not skip_inputs
@@ -623,6 +608,220 @@ func runC14Use(c *Ctx) {
 	} else {
 		c.bad("(*RuleAction).checkRepoAction|checkAction call", calls[0].Pos(), fmt.Sprintf("found=%v notSkipped=%v extra conditions: %s", found, notSkipped, strings.Join(extras, "; ")))
 	}
+}
+
+// collectionReported: the slice grown by apps (followed through phis, helper parameters and results inside scope) is
+// indexed by the variable of a loop; that loop emits, in a block every iteration passes, a diagnostic into which the
+// element flows, and no edge leaves the loop except from its header. Returns the diagnostic, or why there is none.
+func collectionReported(apps []*ssa.Call, scope map[*ssa.Function]bool) (ssa.Instruction, string) {
+	coll := map[ssa.Value]bool{}
+	var work []ssa.Value
+	add := func(v ssa.Value) {
+		if v != nil && !coll[v] {
+			coll[v] = true
+			work = append(work, v)
+		}
+	}
+	for _, a := range apps {
+		add(a)
+	}
+	for len(work) > 0 {
+		v := work[len(work)-1]
+		work = work[:len(work)-1]
+		if v.Referrers() == nil {
+			continue
+		}
+		for _, ref := range *v.Referrers() {
+			switch x := ref.(type) {
+			case *ssa.Phi:
+				add(x)
+			case *ssa.Slice:
+				if x.Low == nil && x.High == nil {
+					add(x)
+				}
+			case *ssa.Return:
+				// handed back by a helper: the results of its calls inside the scope
+				for i, r := range x.Results {
+					if r != v {
+						continue
+					}
+					for f := range scope {
+						eachInstr(f, func(_ *ssa.BasicBlock, _ int, in ssa.Instruction) {
+							call, ok := in.(*ssa.Call)
+							if !ok || staticCallee(&call.Call) != x.Parent() {
+								return
+							}
+							if len(x.Results) == 1 {
+								add(call)
+								return
+							}
+							for _, r2 := range *call.Referrers() {
+								if ex, ok := r2.(*ssa.Extract); ok && ex.Index == i {
+									add(ex)
+								}
+							}
+						})
+					}
+				}
+			case ssa.CallInstruction:
+				if g := staticCallee(x.Common()); g != nil && scope[g] && len(g.Params) == len(x.Common().Args) {
+					for i, a := range x.Common().Args {
+						if a == v {
+							add(g.Params[i])
+						}
+					}
+				}
+			}
+		}
+	}
+	appBlocks := map[*ssa.BasicBlock]bool{}
+	for _, a := range apps {
+		appBlocks[a.Block()] = true
+	}
+	why := "the collected names are not ranged over by a loop that goes round: at most a fixed element is reported"
+	for v := range coll {
+		if v.Referrers() == nil {
+			continue
+		}
+		for _, ref := range *v.Referrers() {
+			ia, ok := ref.(*ssa.IndexAddr)
+			if !ok || ia.X != v {
+				continue
+			}
+			// the innermost loop around the element access whose counter is the index
+			var head *ssa.BasicBlock
+			var body map[*ssa.BasicBlock]bool
+			for _, h := range loopHeaders(ia.Parent()) {
+				l := naturalLoop(h)
+				if l[ia.Block()] && (head == nil || body[h]) {
+					head, body = h, l
+				}
+			}
+			if head == nil || !definedIn(ia.Index, body) {
+				if ix, ok := ia.Index.(ssa.Instruction); ok && ix.Block() != nil && isRangeLoop(ix.Block()) && !appBlocks[ia.Block()] {
+					pos := ia.Parent().Prog.Fset.Position(ia.Pos())
+					why = fmt.Sprintf("the loop over the collected names (line %d) never goes round: every path through its body leaves it (break or return), so only the first name is reported", pos.Line)
+				}
+				continue
+			}
+			collecting := false
+			for b := range appBlocks {
+				if body[b] {
+					collecting = true
+				}
+			}
+			if collecting {
+				continue
+			}
+			// left only from the header
+			var exit *ssa.BasicBlock
+			for b := range body {
+				for _, s := range b.Succs {
+					if !body[s] && b != head && (exit == nil || b.Index < exit.Index) {
+						exit = b
+					}
+				}
+			}
+			// the element
+			var elems []ssa.Value
+			for _, r2 := range *ia.Referrers() {
+				if u, ok := r2.(*ssa.UnOp); ok && u.Op == token.MUL {
+					elems = append(elems, u)
+				}
+			}
+			var diag ssa.Instruction
+			always, about := false, false
+			for b := range body {
+				for _, in := range b.Instrs {
+					if !emitsDiag(in) {
+						continue
+					}
+					if diag == nil {
+						diag = in
+					}
+					everyIter := true
+					for _, latch := range head.Preds {
+						if body[latch] && !(b == latch || b.Dominates(latch)) {
+							everyIter = false
+						}
+					}
+					flows := false
+					for _, e := range elems {
+						if flowsIntoInstr(e, in) {
+							flows = true
+						}
+					}
+					if everyIter && flows {
+						diag, always, about = in, true, true
+					} else if everyIter && !always {
+						diag, always = in, true
+					}
+				}
+			}
+			pos := ia.Parent().Prog.Fset.Position(ia.Pos())
+			at := fmt.Sprintf("line %d", pos.Line)
+			switch {
+			case diag == nil:
+				why = "the loop over the collected names (" + at + ") emits no diagnostic"
+			case !always:
+				why = "the loop over the collected names (" + at + ") reports only under a further condition, not for every element"
+			case !about:
+				why = "the diagnostic in the loop over the collected names (" + at + ") does not depend on the element"
+			case exit != nil:
+				why = "the loop over the collected names (" + at + ") is left early (break or return inside it): the names after the first are not reported"
+			default:
+				return diag, ""
+			}
+		}
+	}
+	return nil, why
+}
+
+// flowsIntoInstr: the value reaches an operand of target, through computed values and through stores into locals (the
+// argument arrays of variadic calls).
+func flowsIntoInstr(src ssa.Value, target ssa.Instruction) bool {
+	seen := map[ssa.Value]bool{}
+	work := []ssa.Value{src}
+	for len(work) > 0 && len(seen) < 400 {
+		v := work[len(work)-1]
+		work = work[:len(work)-1]
+		if seen[v] || v.Referrers() == nil {
+			continue
+		}
+		seen[v] = true
+		for _, ref := range *v.Referrers() {
+			if ref == target {
+				return true
+			}
+			if st, ok := ref.(*ssa.Store); ok {
+				if st.Val == v {
+					a := st.Addr
+					for {
+						switch x := a.(type) {
+						case *ssa.IndexAddr:
+							a = x.X
+							continue
+						case *ssa.FieldAddr:
+							a = x.X
+							continue
+						}
+						break
+					}
+					if al, ok := a.(*ssa.Alloc); ok {
+						work = append(work, al)
+					}
+				}
+				continue
+			}
+			if val, ok := ref.(ssa.Value); ok {
+				if _, isCall := val.(*ssa.Call); isCall && val.Parent() != target.Parent() {
+					continue
+				}
+				work = append(work, val)
+			}
+		}
+	}
+	return false
 }
 
 // ---- C14.OUT ----
